@@ -33,7 +33,7 @@ def bars(grid, paths, spread):
 def full_model(name, contracts, space, grid, events, targets, lats=(0,), delays=(0,), fees="free", rate=F(0), markup=F(0),
                deposit=F(1000), thr=F(0), maxsteps=3, ruin="done", chain=(), chain_ltd=(), chain_exp=(), yearlen=0,
                base=(2019, 3, 4), invariants=(), properties=(), reset_anywhere=False, clockscope="restored_on_entry",
-               extends="EnvFull", extra_plain=None, chain_offset=0, fractional=True, rate_path=(), measure="weight"):
+               extends="EnvFull", extra_plain=None, chain_offset=0, fractional=True, rate_path=(), measure="weight", relative=False):
     cs = {c: CONTRACTS[c] for c in contracts}
     fixed, prop = FEES[fees]
     defs = {
@@ -47,7 +47,7 @@ def full_model(name, contracts, space, grid, events, targets, lats=(0,), delays=
         "ChainSeq": list(chain), "ChainLtd": list(chain_ltd), "ChainExp": list(chain_exp), "Thr": thr,
     }
     plain = {"RefRule": "carry", "SpotMult": "applied", "SubLot": "skip", "YearLen": yearlen, "MaxSteps": maxsteps,
-             "RuinStep": ruin, "ResetAnywhere": reset_anywhere, "ClockScope": clockscope, "ChainOffset": chain_offset, "Fractional": bool(fractional), "Measure": measure}
+             "RuinStep": ruin, "ResetAnywhere": reset_anywhere, "ClockScope": clockscope, "ChainOffset": chain_offset, "Fractional": bool(fractional), "Measure": measure, "Relative": bool(relative)}
     plain.update(extra_plain or {})
     return {
         "name": name,
@@ -56,7 +56,7 @@ def full_model(name, contracts, space, grid, events, targets, lats=(0,), delays=
         "ctx": {"model": {"contracts": cs, "space": list(space), "chain": list(chain), "fixed": fixed, "prop": prop,
                           "deposit": deposit, "rate": rate, "markup": markup, "thr": thr, "base": list(base),
                           "chain_offset": chain_offset, "fractional": bool(fractional),
-                          "rate_path": [tuple(x) for x in rate_path], "yearlen": yearlen, "measure": measure},
+                          "rate_path": [tuple(x) for x in rate_path], "yearlen": yearlen, "measure": measure, "relative": bool(relative)},
                 "maxsteps": maxsteps, "name": name},
         "invariants": list(invariants), "properties": list(properties),
     }
